@@ -39,6 +39,8 @@ def gen_cmd(rng, name, depth, max_depth, fanout, opts_by_depth=None):
                 s["default"] = True
             elif r < 0.4:
                 s["default"], s["anonymous"] = True, True
+            elif r < 0.5:
+                s["unmarked"] = True
             c["subs"].append(s)
         # an option of the command named like one of its sub-commands (`--add` next to sub-command `add`):
         # options never name commands, wherever they stand
@@ -78,6 +80,8 @@ def gen_tree(rng, max_depth=3, fanout=3, opts_by_depth=None):
             c["default"] = True
         elif r < 0.3:
             c["default"], c["anonymous"] = True, True
+        elif r < 0.4:
+            c["unmarked"] = True
         cmds.append(c)
     return {"commands": cmds, "global_flag": rng.random() < 0.8}
 
@@ -90,6 +94,10 @@ def _configure(cfg, spec, handler_for=None, path=()):
         cfg.anonymous()
     elif spec["default"]:
         cfg.default()
+    elif spec.get("unmarked"):
+        # marked as default and un-marked again (`default(False)`): an ordinary command
+        cfg.default()
+        cfg.default(False)
     if spec["hidden"]:
         cfg.hide()
     if not spec["enabled"]:
